@@ -311,6 +311,40 @@ func TestC08(t *testing.T) {
 		}
 	}
 
+	// every short string over the characters the property names (operators, keyword
+	// letters, digits, wildcards, slashes, backslashes, whitespace) and the characters
+	// that are special to SQL, x clause x position
+	c08Alpha := []string{"a", "5", "O", "R", ".", "-", "+", "&", "|", "!", "(", ")", "{", "}", "[", "]", "^", "~", "*", "?", ":", `\`, "/", "'", `"`, "=", ">", "<", "%", "_", " ", "\t", "é", "$"}
+	shortLen := 2
+	if cfg.Thorough() {
+		shortLen = 3
+	}
+	st.Stream("short-strings", true, fmt.Sprintf("every string of 1..%d characters over the %d-character alphabet %q x {quote (strings without '\"'), escape (non-numeric, non-keyword)} x %d positions", shortLen, len(c08Alpha), strings.Join(c08Alpha, ""), len(c08Positions)))
+	idx = 0
+	var short func(prefix string, left int)
+	short = func(prefix string, left int) {
+		if prefix != "" {
+			for _, pos := range c08Positions {
+				if idx%cfg.NShards == cfg.Shard {
+					if !strings.Contains(prefix, `"`) {
+						run("short-strings", VerbatimCase{W: prefix, Clause: "quote", Pos: pos})
+					}
+					if okEscape(prefix) {
+						run("short-strings", VerbatimCase{W: prefix, Clause: "escape", Pos: pos})
+					}
+				}
+				idx++
+			}
+		}
+		if left == 0 {
+			return
+		}
+		for _, a := range c08Alpha {
+			short(prefix+a, left-1)
+		}
+	}
+	short("", shortLen)
+
 	st.Rapid(t, "random-values", cfg.N(40000, 2500000), func(rt *rapid.T) {
 		clause := rapid.SampledFrom([]string{"quote", "escape"}).Draw(rt, "clause")
 		var w string
